@@ -59,19 +59,30 @@ def check_sequence_model(ctx, cls_name, ops):
         for s in (init or []):
             m.add_step(s)
     model = [s.sid for s in (init or [])]
+    objs = list(init or [])
     removed = False
     for op in ops:
         if op[0] == "init":
             continue
         if op[0] == "add":
-            m.add_step(Rec(log, op[1]))
+            objs.append(Rec(log, op[1]))
+            m.add_step(objs[-1])
             model.append(op[1])
+        elif op[0] == "readd":
+            # the SAME stage object a second time (a pipeline may use one module at several positions)
+            if not objs:
+                continue
+            j = op[1] % len(objs)
+            m.add_step(objs[j])
+            model.append(model[j])
+            objs.append(objs[j])
         elif op[0] == "remove":
             idx = op[1]
             ctx.ev()
             if 0 <= idx < len(model):
                 m.remove_step(idx)
                 model.pop(idx)
+                objs.pop(idx)
                 removed = True
             else:
                 try:
@@ -124,6 +135,12 @@ def unit_sequence_stateful(ctx, cls_name, examples, steps):
             self.count += 1
             self.ops.append(("add", f"s{self.n}"))
 
+        @precondition(lambda self: 0 < self.count < 6)
+        @rule(j=st.integers(0, 5))
+        def readd(self, j):
+            self.count += 1
+            self.ops.append(("readd", j))
+
         @rule(idx=st.integers(-1, 6))
         def remove(self, idx):
             if not self.ops:
@@ -144,6 +161,10 @@ def unit_sequence_stateful(ctx, cls_name, examples, steps):
             ctx._nontrivial |= sub._nontrivial
             assert ok, "pipeline disagrees with the list model"
 
+    # planted: one stage object at two positions, the later occurrence (and then the earlier one) removed
+    for planted in ([("init", 0), ("add", "a"), ("add", "b"), ("readd", 0), ("remove", 2), ("run", [], {})],
+                    [("init", 2), ("readd", 0), ("add", "c"), ("readd", 1), ("remove", 2), ("run", [1], {"snr": 2}), ("remove", 0), ("run", [], {})]):
+        check_sequence_model(ctx, cls_name, planted)
     try:
         run_state_machine_as_test(hypothesis.seed(ctx.seed * 7 + len(cls_name))(Machine),
                                   settings=settings(max_examples=examples, stateful_step_count=steps, deadline=None, database=None, derandomize=False,
@@ -151,7 +172,7 @@ def unit_sequence_stateful(ctx, cls_name, examples, steps):
     except AssertionError:
         check_sequence_model(ctx, cls_name, _LASTSEQ.get("ops", []))  # records the (shrunk) failing history
     ctx.cls("sequence_histories_" + cls_name, runs["n"])
-    ctx.sample({"model": cls_name, "stateful_runs": runs["n"], "rules": ["init", "add", "remove", "run"]})
+    ctx.sample({"model": cls_name, "stateful_runs": runs["n"], "rules": ["init", "add", "readd (same object again)", "remove", "run"]})
 
 
 def unit_fixed_pipelines(ctx):
